@@ -19,6 +19,9 @@ else
   CRATE=agdb; FILTER=""
 fi
 cd "$S"
+# `git archive | tar` gives every file the commit's mtime: with a shared target directory cargo would then reuse
+# the artifacts of the previous (patched) run for the "without patch" demo. Touch the sources first.
+find "$S" -name '*.rs' -exec touch {} +
 git init -q . 2>/dev/null; git add -A >/dev/null 2>&1; git -c user.email=a@b -c user.name=x commit -qm base >/dev/null 2>&1
 if [ -f "$D/demo.diff" ]; then
   git apply "$D/demo.diff" || { echo "$N: DEMO PATCH DOES NOT APPLY"; rm -rf "$S"; exit 1; }
